@@ -72,6 +72,10 @@ def np_reference(case):
             r = src[py_index(case["comps"], len(case["shape"]), "np")]
         elif fam == "vindex":
             r = src[tuple(np.array(p, dtype=np.intp) for p in case["pts"])]
+        elif fam == "vindexc":
+            r = src[tuple(np.array(c["v"], dtype=np.intp) if c["k"] == "l" else c["i"] for c in case["comps"])]
+        elif fam == "mask":
+            r = src[np.array(case["mask"], dtype=bool).reshape(tuple(case["shape"]))]
         elif fam == "blocks":
             return None     # NumPy has no .blocks; reference sanity is checked by TLC invariants
         return {"err": False, "shape": list(r.shape), "cells": cells(r)}
@@ -93,6 +97,15 @@ def run_dask(case, indexer="list", ellipsis=False):
         elif fam == "vindex":
             pts = [np.array(p, dtype=np.intp) if indexer != "list" else list(p) for p in case["pts"]]
             y = x.vindex[tuple(pts)]
+        elif fam == "vindexc":
+            key = tuple((np.array(c["v"], dtype=np.intp) if indexer != "list" else list(c["v"])) if c["k"] == "l" else c["i"]
+                        for c in case["comps"])
+            y = x.vindex[key]
+        elif fam == "mask":
+            m = np.array(case["mask"], dtype=bool).reshape(shape)
+            if indexer == "da":
+                m = da.from_array(m, chunks=py_chunks(case["mchunks"]))
+            y = x[m]
         elif fam == "blocks":
             y = x.blocks[py_index(case["comps"], len(shape), "list", ellipsis)]
         obs, full = observe(y, whole_too=case.get("whole", False))
@@ -199,8 +212,10 @@ def variants_for(case, rng, thorough):
     fam = case["fam"]
     if fam == "slice1d":
         return [("list", False)]
-    if fam == "vindex":
+    if fam in ("vindex", "vindexc"):
         return [("list", False), ("np", False)] if thorough else [(rng.choice(["list", "np"]), False)]
+    if fam == "mask":
+        return [("np", False), ("da", False)]
     if fam == "blocks":
         return [("list", False), ("list", True)] if thorough else [("list", rng.random() < 0.3)]
     has_arr = any(c["k"] in ("l", "b") for c in case["comps"])
@@ -281,14 +296,16 @@ def run(ctx):
     fams = [("slice1d", {"Fam": "slice1d", "N": n1, "Shapes": TLA("{}")}),
             ("nd", {"Fam": "nd", "N": 0, "Shapes": TLA(shapes2)}),
             ("vindex", {"Fam": "vindex", "N": 0, "Shapes": TLA(shapesv)}),
-            ("blocks", {"Fam": "blocks", "N": 0, "Shapes": TLA(shapesb)})]
+            ("blocks", {"Fam": "blocks", "N": 0, "Shapes": TLA(shapesb)}),
+            ("vindexc", {"Fam": "vindexc", "N": 0, "Shapes": TLA(ctx.pick("{<<2, 3>>, <<3, 2, 2>>}", "{<<2, 3>>, <<3, 4>>, <<3, 2, 2>>}"))}),
+            ("mask", {"Fam": "mask", "N": 0, "Shapes": TLA(ctx.pick("{<<2, 3>>}", "{<<2, 3>>, <<3, 2>>, <<2, 2, 2>>}"))})]
     total_cases = 0
     sampled = False
     for fam, consts in fams:
         spec, cfg = ctx.model(ctx.spec("array", "IndexingMC.tla"), consts, invariants=invs)
         cases, _ = ctx.tlc_cases(spec, cfg, label="design+cases:" + fam, timeout=1200)
         total_cases += len(cases)
-        cap = ctx.pick({"slice1d": 40000, "nd": 12000, "vindex": 3000, "blocks": 3000}[fam], 10 ** 9)
+        cap = ctx.pick({"slice1d": 25000, "nd": 12000, "vindex": 2000, "blocks": 2000, "vindexc": 2500, "mask": 3000}[fam], 10 ** 9)
         if len(cases) > cap:
             sampled = True
             cases = ctx.rng.sample(cases, cap)
